@@ -306,6 +306,11 @@ func execStateMethods(c *Ctx, which map[string]bool) {
 					var addA, addR []*Event
 					var stTime, stBox *Event
 					var now *T
+					for _, x := range p.Events() {
+						if isCall(x, "Now") { // reading the clock is not an effect: it is not among the events of mid
+							now = x.Res[0]
+						}
+					}
 					for _, x := range mid[1:] {
 						switch {
 						case isCall(x, "Add") && x.Recv == attempts:
